@@ -359,6 +359,10 @@ pub fn build_world(w: &[u32; WORLD_WORDS], p: &Profile) -> WorldSpec {
         if kind == MarkerKind::Restricted && (w[4].rotate_left(3) ^ d.len() as u32) % 3 == 0 {
             tables.marker_required_attrs.insert(d.clone());
         }
+        // one marker in ten is answered as cancelled, finalized or proposed: still the same type
+        if kind != MarkerKind::NoMarker && (w[4].rotate_left(11) ^ (d.len() as u32).wrapping_mul(2654435761)) % 10 == 0 {
+            tables.marker_status.insert(d.clone(), [4, 2, 1, 4][(w[4].rotate_left(19) % 4) as usize]);
+        }
         tables.markers.insert(d.clone(), kind);
     }
     // roles
@@ -1409,7 +1413,15 @@ impl<'a> Interp<'a> {
                         v.push(POOL[pick(w[10], 8)].to_string());
                     }
                 }
-                3 => v = vec![POOL[pick(w[10], 8)].to_string(), at(&v, 0, "acct0")],
+                3 => {
+                    if v.len() >= 2 && gate(w[10].rotate_left(9), 500) {
+                        // same length, somebody dropped, somebody named twice
+                        let n = v.len();
+                        v[n - 1] = v[0].clone();
+                    } else {
+                        v = vec![POOL[pick(w[10], 8)].to_string(), at(&v, 0, "acct0")]
+                    }
+                }
                 _ => v = vec![],
             }
             if gate(w[3].rotate_left(15), 80) {
@@ -1632,8 +1644,19 @@ fn mid_history_migration(r: &mut Runner, w: &[u32; WORLD_WORDS]) {
         }); }
     }
     let mut ch = crate::wire::CfgChange::default();
-    match pick(w[29].rotate_left(17), 5) {
+    match pick(w[29].rotate_left(17), 7) {
         0 | 1 => {}
+        5 | 6 => {
+            // the fee of one side is switched off while orders placed under it are open
+            if pick(w[29].rotate_left(3), 2) == 0 {
+                ch.bid_fee_rate = Some(String::new());
+                ch.bid_fee_account = Some(String::new());
+            } else {
+                ch.ask_fee_rate = Some(String::new());
+                ch.ask_fee_account = Some(String::new());
+            }
+            r.judge.label("mid-history-migration-clears-a-fee");
+        }
         2 => {
             if cfg.approvers.len() > 1 {
                 let mut v = cfg.approvers.clone();
